@@ -3,7 +3,7 @@
 import json, os, shutil, sys
 src = "/tmp/seeds"
 for prop in sorted(os.listdir(src)):
-    for i in (1, 2, 3, 4, 5, 6):
+    for i in (1, 2, 3, 4, 5, 6, 7, 8):
         cf = os.path.join(src, prop, f"confirm_{i}.json")
         if not os.path.exists(cf):
             continue
@@ -32,5 +32,9 @@ for prop in sorted(os.listdir(src)):
             },
             "detection": old.get("detection"),
         }
+        if m.get("commit_message"):
+            meta["commit_message"] = m["commit_message"]
+        if old.get("rebased"):
+            meta["rebased"] = old["rebased"]
         json.dump(meta, open(meta_path, "w"), indent=1)
         print("kept", dst)
